@@ -422,6 +422,25 @@ def routes_case(rng, ctx, scn):
     if worst > tol:
         ctx.violation('route_disagreement', f'Q*d differs from 2 pi by {worst:.3g}', case,
                       route='Q*d')
+    # the public graph factories must wire the same kernels as convert() uses
+    from scippneutron.conversion.graph import beamline as GB
+    from scippneutron.conversion.graph import tof as GT
+    ref = {'wavelength': lam, 'energy': e_direct, 'dspacing': d_direct,
+           'Q': conv(da, 'tof', 'Q', scatter=True)}
+    _pair(ctx, 'tof->Q vs tof->lambda->Q', co(ref['Q'], 'Q'), co(q, 'Q'), tol, case)
+    for fname, start, target in (('elastic', 'tof', 'dspacing'), ('elastic_dspacing', 'tof', 'dspacing'),
+                                 ('elastic_energy', 'tof', 'energy'), ('elastic_Q', 'tof', 'Q'),
+                                 ('kinematic', 'tof', 'wavelength'), ('kinematic', 'tof', 'energy'),
+                                 ('elastic_dspacing', 'wavelength', 'dspacing'), ('elastic_Q', 'wavelength', 'Q'),
+                                 ('elastic_energy', 'wavelength', 'energy'), ('elastic_dspacing', 'energy', 'dspacing')):
+        src = {'tof': da, 'wavelength': lam, 'energy': e_direct}[start]
+        graph = {**GB.beamline(scatter=True), **getattr(GT, fname)(start)}
+        out = only(src, start).transform_coords(target, graph=graph)
+        ctx.count('factory_graph_calls')
+        want = ref[target]
+        if start != 'tof':
+            want = conv(src, start, target, scatter=True)
+        _pair(ctx, f'graph.{fname}({start})->{target} vs convert', co(out, target), co(want, target), tol, case)
     return ('routes', dt, tunit, lunit, 'binned' if binned else 'dense')
 
 
